@@ -483,7 +483,10 @@ func (e *kvElection) attemptPriorityTakeover(payloadBytes []byte) error {
 	return nil
 }
 
-func (e *kvElection) becomeFollower() {
+// becomeFollower clears the leadership claim and reports whether this call
+// cleared one (false when the instance was not leader, or is stopped), so that
+// callers run the demotion callback exactly once per lost term.
+func (e *kvElection) becomeFollower() bool {
 	e.mu.Lock()
 	defer e.mu.Unlock()
 
@@ -496,7 +499,7 @@ func (e *kvElection) becomeFollower() {
 
 	// Stop is final: a late demotion must not turn STOPPED into FOLLOWER.
 	if fromState == StateStopped {
-		return
+		return false
 	}
 
 	wasLeader := e.isLeader.Load()
@@ -529,6 +532,8 @@ func (e *kvElection) becomeFollower() {
 			e.watchLoop(ctx)
 		}()
 	}
+
+	return wasLeader
 }
 
 func (e *kvElection) Stop() error {
